@@ -1289,3 +1289,165 @@ pub fn connected_udp(spec: &crate::Spec) -> Report {
     rep.flag("peer-went-away-and-came-back");
     rep
 }
+
+/// seqx/sock-rebind: the Unix sinks address a *path*. Histories over {emit, flush, a new server
+/// binds the path while the old one stays open, the old server closes}: every datagram a send
+/// reported as accepted arrives at whoever is bound to the path at that moment, none at a
+/// previous binder (C13). Plus: a buffered sink (spy, UDP, Unix) dropped while its thread unwinds
+/// from a panic still sends what remains (C13, C06).
+pub fn rebind_and_unwind(spec: &crate::Spec) -> Report {
+    let mut rep = Report::new(&spec.raw);
+    let depth = spec.usize("depth", 4);
+    #[derive(Clone, Copy, Debug, PartialEq)]
+    enum Op {
+        Emit,
+        Flush,
+        Rebind,
+        CloseOld,
+    }
+    for cap in [None, Some(8usize), Some(64)] {
+        let alpha: Vec<Op> = if cap.is_some() { vec![Op::Emit, Op::Flush, Op::Rebind, Op::CloseOld] } else { vec![Op::Emit, Op::Rebind, Op::CloseOld] };
+        let hists: Vec<Vec<Op>> = crate::fmt::sequences(&alpha, depth).into_iter().filter(|h| h.contains(&Op::Rebind) && h.contains(&Op::Emit)).collect();
+        for h in &hists {
+            rep.traces += 1;
+            let mut current = Rx::unix("rebind");
+            let path = current.path();
+            let mut old: Vec<Rx> = vec![];
+            let sock = UnixDatagram::unbound().unwrap();
+            let sink: Box<dyn MetricSink> = match cap {
+                None => Box::new(UnixMetricSink::from(&path, sock)),
+                Some(c) => Box::new(BufferedUnixMetricSink::with_capacity(&path, sock, c)),
+            };
+            let ctx = format!("{} given path P, history {:?}", if let Some(c) = cap { format!("BufferedUnixMetricSink(capacity {})", c) } else { "UnixMetricSink".to_string() }, h);
+            let mut n = 0;
+            let mut accepted: Vec<String> = vec![];
+            let mut at_current: Vec<String> = vec![];
+            let mut ops = h.clone();
+            ops.extend([Op::Flush, Op::Flush]);
+            for op in ops {
+                rep.evaluations += 1;
+                match op {
+                    Op::Emit => {
+                        let m = format!("m{}:1|c", n);
+                        n += 1;
+                        if let Ok(Ok(_)) = panic::catch_unwind(AssertUnwindSafe(|| sink.emit(&m))) {
+                            accepted.push(m);
+                        }
+                    }
+                    Op::Flush => {
+                        let _ = panic::catch_unwind(AssertUnwindSafe(|| sink.flush()));
+                    }
+                    Op::Rebind => {
+                        // a new server takes over the path; the previous one keeps its socket open
+                        let _ = std::fs::remove_file(&path);
+                        let rx = match UnixDatagram::bind(&path) {
+                            Ok(s) => s,
+                            Err(e) => {
+                                rep.errors.push(format!("cannot bind {:?} again: {}", path, e));
+                                return rep;
+                            }
+                        };
+                        rx.set_read_timeout(Some(Duration::from_secs(15))).unwrap();
+                        let fresh = Rx::Unix(rx, UnixDatagram::unbound().unwrap(), path.clone());
+                        old.push(std::mem::replace(&mut current, fresh));
+                    }
+                    Op::CloseOld => {
+                        for o in old.drain(..) {
+                            if let Rx::Unix(rx, _, _) = &o {
+                                let _ = rx.set_nonblocking(true);
+                                let mut buf = vec![0u8; 70_000];
+                                while let Ok(k) = rx.recv(&mut buf) {
+                                    if !buf[..k].starts_with(&MARK) {
+                                        bad(&mut rep, &["C13"], "wrong-destination", format!("{}: {:?} arrived at a server that no longer owns the path", ctx, bytes_str(&buf[..k.min(60)])));
+                                    }
+                                }
+                            }
+                            // do not let Rx::drop unlink the path: it belongs to the current server now
+                            std::mem::forget(o);
+                        }
+                    }
+                }
+                match current.drain() {
+                    Ok(d) => {
+                        for g in d {
+                            let text = String::from_utf8_lossy(&g).to_string();
+                            at_current.extend(text.trim_end_matches('\n').split('\n').map(|s| s.to_string()));
+                        }
+                    }
+                    Err(e) => {
+                        rep.errors.push(e);
+                        return rep;
+                    }
+                }
+                for o in &old {
+                    if let Rx::Unix(rx, _, _) = o {
+                        let _ = rx.set_nonblocking(true);
+                        let mut buf = vec![0u8; 70_000];
+                        while let Ok(k) = rx.recv(&mut buf) {
+                            if !buf[..k].starts_with(&MARK) {
+                                bad(&mut rep, &["C13"], "wrong-destination", format!("{}: {:?} arrived at a server that no longer owns the path", ctx, bytes_str(&buf[..k.min(60)])));
+                            }
+                        }
+                        let _ = rx.set_nonblocking(false);
+                    }
+                }
+            }
+            drop(sink);
+            if let Ok(d) = current.drain() {
+                for g in d {
+                    let text = String::from_utf8_lossy(&g).to_string();
+                    at_current.extend(text.trim_end_matches('\n').split('\n').map(|s| s.to_string()));
+                }
+            }
+            for m in &accepted {
+                let k = at_current.iter().filter(|x| *x == m).count();
+                if k != 1 {
+                    bad(&mut rep, &["C13", "C06"], "not-at-the-path", format!("{}: {:?} was accepted but arrived {} times at the servers that owned the path when it was sent ({:?})", ctx, m, k, at_current));
+                    break;
+                }
+            }
+            for o in old.drain(..) {
+                std::mem::forget(o);
+            }
+            rep.distinct(&(format!("{:?}{:?}", cap, h), at_current.len()));
+        }
+    }
+    rep.flag("path-taken-over-by-a-new-server");
+    // buffered sinks dropped while their thread unwinds from a panic
+    for which in ["spy", "udp", "unix"] {
+        for k in 1..=3usize {
+            rep.evaluations += 1;
+            let urx = Rx::unix("unwind");
+            let udp = Rx::udp(false).unwrap();
+            let (spy_rx, sink): (Option<_>, Box<dyn MetricSink>) = match which {
+                "spy" => {
+                    let (r, s) = cadence::BufferedSpyMetricSink::with_capacity(None, Some(64));
+                    (Some(r), Box::new(s))
+                }
+                "udp" => (None, Box::new(BufferedUdpMetricSink::with_capacity(udp.addr(), UdpSocket::bind("127.0.0.1:0").unwrap(), 64).unwrap())),
+                _ => (None, Box::new(BufferedUnixMetricSink::with_capacity(urx.path(), UnixDatagram::unbound().unwrap(), 64))),
+            };
+            let names: Vec<String> = (0..k).map(|i| format!("u{}:1|c", i)).collect();
+            let n2 = names.clone();
+            let _ = panic::catch_unwind(AssertUnwindSafe(move || {
+                let s = sink;
+                for m in &n2 {
+                    let _ = s.emit(m);
+                }
+                panic::panic_any(crate::rt::ScriptedPanic("the thread that owns the sink panics".into()));
+            }));
+            let got: Vec<Vec<u8>> = match which {
+                "spy" => spy_rx.unwrap().try_iter().collect(),
+                "udp" => udp.drain().unwrap_or_default(),
+                _ => urx.drain().unwrap_or_default(),
+            };
+            let text: String = got.iter().map(|g| String::from_utf8_lossy(g).to_string()).collect();
+            let want: String = names.iter().map(|m| format!("{}\n", m)).collect();
+            if text != want {
+                bad(&mut rep, &["C13", "C06"], "not-sent-on-drop-while-unwinding", format!("a buffered {} sink holding {} metrics was dropped while its thread unwound from a panic: {:?} arrived, expected {:?}", which, k, text, want));
+            }
+        }
+    }
+    rep.flag("dropped-while-unwinding");
+    rep
+}
